@@ -31,6 +31,7 @@ type Monitors struct {
 	lastVC    map[string]int64 // node|h -> last VIEW_CHANGE view
 	maxView   map[string]uint64
 	delivered map[string]map[string]bool // node -> raw content already delivered (duplicates)
+	bareAdopted bool // some correct node adopted a bare PREPREPARE in a view above 0 in this scenario (known finding D5)
 }
 
 type preState struct {
@@ -382,6 +383,7 @@ func (m *Monitors) afterDeliver(n *RealNode, f *Flight, enc string) {
 			}
 			net.c.Nontrivial(fmt.Sprintf("adopt-gt0/newview/%s", net.lastAdvOp))
 		case *interfaces.PreprepareMessage:
+			m.bareAdopted = true
 			m.viol("C07", "bare-preprepare-gt0", fmt.Sprintf("node %d sent PREPARE in view %d on a bare PREPREPARE (no NEW_VIEW certificate)%s", n.Idx, adoptedView, advTag))
 		default:
 			m.viol("C07", "adopt-on-other-message", fmt.Sprintf("node %d sent PREPARE in view %d while handling %T", n.Idx, adoptedView, cm))
@@ -593,7 +595,11 @@ func (m *Monitors) oneCommit(n *RealNode, id string) {
 		}
 		for other, b := range m.decided[h] {
 			if b.Id != co.Block.Id {
-				m.viol("C01", "fork", fmt.Sprintf("height %d: node %d committed block %d, node %x committed block %d", h, n.Idx, co.Block.Id, other, b.Id))
+				sig := "fork"
+				if m.bareAdopted {
+					sig = "fork-after-bare-preprepare-gt0" // the lock was bypassed through the known finding D5
+				}
+				m.viol("C01", sig, fmt.Sprintf("height %d: node %d committed block %d, node %x committed block %d", h, n.Idx, co.Block.Id, other, b.Id))
 			}
 		}
 		m.decided[h][id] = co.Block
